@@ -1774,6 +1774,13 @@ pub fn run_c09(tier: Tier, budget: Duration, frag: &mut Frag) {
         frag.transitions += hist;
         frag.traces_validated += hist;
     }
+    {
+        let t1 = Instant::now();
+        let k = crate::c09::unwind_probe(&mut frag.col);
+        frag.parts.push(json!({"engine":"child-process probe","what":"fetches of a present slot made from a destructor while the thread unwinds from a panic, with an exclusive / a shared guard of the slot alive (8 cases, one child process each): a fetch the guard rules out never answers 'absent' and never hands out a second guard","cases": k, "wall_s": t1.elapsed().as_secs_f64()}));
+        frag.states += k;
+        frag.transitions += k;
+    }
     let n = jobs.len() as u32;
     for (depth, full, ids) in jobs {
         let t1 = Instant::now();
